@@ -20,5 +20,11 @@ def run(tier):
                        rule="instances: all Gen_Dcop shapes (chains, stars, triangle, cycle, triangle with tails on every corner, kite, ternary constraints, parallel and unary constraints, "
                             "isolated variables, two components) with TLC-drawn tables over {0,1,3,-2,7}, with and without own-value costs, min "
                             "and max; the optimum is computed by TLC (Dcop!Opt); real DpopAlgo computations on the real pseudo-tree under seeded "
-                            "start/delivery orders, by reference and through the JSON wire format; non-trivial = at least one constraint and all finished")
+                            "start/delivery orders, by reference and through the JSON wire format; non-trivial = at least one constraint and all finished. "
+                            "MODEL: Dpop.tla (DpopAlgo on the pseudo-tree the real builder produced) checked by TLC over every start and "
+                            "delivery order (invariants FinishedMeansOptimal, QuietMeansFinished, no deadlock before the end, ValueInDomain, "
+                            "UtilWithoutSender); every explored transition replayed on the real computations with the joined utility tables, "
+                            "separators and messages compared")
+    from ..dpopmodel import model_part
+    model_part(v, tier, ["FinishedMeansOptimal", "QuietMeansFinished", "ValueInDomain", "UtilWithoutSender"], CLAUSES, ["quiet_fin", "opt"], seed_off=1)
     return v.finish()
